@@ -873,8 +873,13 @@ def w1_walk(ctx):
               note="step advances (previous, current) together")
     loops = [l for l in H.loop_ancestors(step_st, stop=wl) if isinstance(l, ast.For)]
     lp = loops[0] if loops else None
-    ok_lp = lp is not None and H.is_name(lp.target, nxt) and isinstance(lp.iter, ast.Call) \
-        and au.call_tail(lp.iter) == "vertex_to_vertices" and len(lp.iter.args) == 1 and H.is_name(lp.iter.args[0], cur)
+    lit = lp.iter if lp is not None else None
+    if isinstance(lit, ast.Call) and au.call_tail(lit) == "reversed" and len(lit.args) == 1:
+        lit = lit.args[0]          # scan direction is judged by the orientation obligation below
+    elif isinstance(lit, ast.Subscript) and isinstance(lit.slice, ast.Slice) and lit.slice.lower is None and lit.slice.upper is None:
+        lit = lit.value
+    ok_lp = lp is not None and H.is_name(lp.target, nxt) and isinstance(lit, ast.Call) \
+        and au.call_tail(lit) == "vertex_to_vertices" and len(lit.args) == 1 and H.is_name(lit.args[0], cur)
     ctx.check(ok_lp, "C15-W1", ctx.site(BORD, fn, step_st),
               "extract_border_cycle: the next vertex is not chosen among vertex_to_vertices(current)",
               "the walk moves along edges of the mesh", note="candidates = neighbours of the current vertex")
